@@ -238,6 +238,16 @@ struct FreeVarsVisitor {
 }
 
 impl Visitor for FreeVarsVisitor {
+    fn visit_block(&mut self, block: &Block) {
+        // Variables bound in a block aren't visible after it, so a
+        // later use of the same name refers to an outer variable.
+        self.local_bindings.push(FxHashSet::default());
+        for expr in &block.exprs {
+            self.visit_expr(expr);
+        }
+        self.local_bindings.pop();
+    }
+
     fn visit_expr_variable(&mut self, symbol: &ast::Symbol) {
         if self.namespace.borrow().values.contains_key(&symbol.name) {
             return;
